@@ -497,9 +497,48 @@ func buildReplay(o CheckOpts, w *World, r *OblReport, rf *ReplayFile) {
 		}
 	}
 	body.WriteString("}\n")
+	// dot imports of the package under test are replicated (with a dummy use)
+	var dotUses []string
+	if lp := w.pkgs[fn.Pkg.Pkg.Path()]; lp != nil {
+		seenDot := map[string]bool{}
+		for _, f := range lp.Syntax {
+			for _, im := range f.Imports {
+				if im.Name == nil || im.Name.Name != "." {
+					continue
+				}
+				path := strings.Trim(im.Path.Value, "\"")
+				if seenDot[path] {
+					continue
+				}
+				seenDot[path] = true
+				dp := w.pkgs[path]
+				if dp == nil || dp.Types == nil {
+					continue
+				}
+				for _, name := range dp.Types.Scope().Names() {
+					obj := dp.Types.Scope().Lookup(name)
+					if !obj.Exported() {
+						continue
+					}
+					switch obj.(type) {
+					case *types.Const, *types.Var, *types.Func:
+						dotUses = append(dotUses, fmt.Sprintf("var _ = %s", name))
+					default:
+						continue
+					}
+					g.imports["."+path] = path
+					break
+				}
+			}
+		}
+	}
 	// imports
 	b.WriteString("import (\n")
 	for alias, path := range g.imports {
+		if strings.HasPrefix(alias, ".") {
+			fmt.Fprintf(&b, "\t. %q\n", path)
+			continue
+		}
 		if alias == filepath.Base(path) {
 			fmt.Fprintf(&b, "\t%q\n", path)
 		} else {
@@ -507,6 +546,9 @@ func buildReplay(o CheckOpts, w *World, r *OblReport, rf *ReplayFile) {
 		}
 	}
 	b.WriteString(")\n\n")
+	for _, d := range dotUses {
+		b.WriteString(d + "\n")
+	}
 	b.WriteString("func govcImplies(a, b bool) bool { return !a || b }\n")
 	b.WriteString("func govcIte[T any](c bool, a, b T) T { if c { return a }; return b }\n")
 	b.WriteString("func govcForall(lo, hi int, f func(int) bool) bool { for i := lo; i < hi; i++ { if !f(i) { return false } }; return true }\n")
